@@ -75,8 +75,10 @@ func (rcSuite) Gen(r *rand.Rand, i int) Case {
 			c.Ops = append(c.Ops, fmt.Sprintf("inc %d", d))
 		case x < 68:
 			c.Ops = append(c.Ops, fmt.Sprintf("sum %d", d))
-		case x < 84:
+		case x < 80:
 			c.Ops = append(c.Ops, fmt.Sprintf("bk %d", d))
+		case x < 84:
+			c.Ops = append(c.Ops, fmt.Sprintf("str %d", d))
 		case x < 90:
 			c.Ops = append(c.Ops, fmt.Sprintf("reset %d", d))
 			c.Tags = append(c.Tags, "reset")
@@ -136,6 +138,19 @@ func (rcSuite) Run(h map[string]string, ops []string) []string {
 				return strconv.FormatInt(c.RollingSumAt(at()), 10)
 			case "bk":
 				return fmtInts(c.GetBuckets(at()))
+			case "str":
+				// the text view must say what the three getters say at the same instant
+				got := c.StringAt(at())
+				bk := c.GetBuckets(at())
+				parts := make([]string, len(bk))
+				for i, v := range bk {
+					parts[i] = strconv.FormatInt(v, 10)
+				}
+				want := fmt.Sprintf("rolling_sum=%d total_sum=%d parts=(%s)", c.RollingSumAt(at()), c.TotalSum(), strings.Join(parts, ","))
+				if got != want {
+					return "mismatch:" + strings.Replace(got, " ", "_", -1)
+				}
+				return "ok"
 			case "reset":
 				c.Reset(at())
 				return "ok"
